@@ -321,11 +321,76 @@ fn plain_text(text: &[u8]) -> bool {
             }
         }
     }
-    if text.contains(&13) {
+    // `plainTextCrlf`: every CR is the first half of a CR LF; judged on the text with CR LF read as LF
+    let mut folded = Vec::with_capacity(text.len());
+    let mut i = 0;
+    while i < text.len() {
+        if text[i] == 13 {
+            if text.get(i + 1) == Some(&b'\n') {
+                folded.push(b'\n');
+                i += 2;
+                continue;
+            }
+            return false;
+        }
+        folded.push(text[i]);
+        i += 1;
+    }
+    let skip = folded.iter().take_while(|c| **c == b' ' || **c == 9).count();
+    go(&folded[skip..], false, false)
+}
+
+/// Rust port of `GixModel.C27.decRead`: sign, maximal digit run (value within i64), rest
+fn dec_read(s: &[u8]) -> Option<(i128, &[u8])> {
+    let (neg, body) = match s.first() {
+        Some(b'-') => (true, &s[1..]),
+        Some(b'+') => (false, &s[1..]),
+        _ => (false, s),
+    };
+    let n = body.iter().take_while(|c| c.is_ascii_digit()).count();
+    if n == 0 {
+        return None;
+    }
+    let mut v: i128 = 0;
+    for c in &body[..n] {
+        v = v.checked_mul(10)?.checked_add((c - b'0') as i128)?;
+        if v > (1i128 << 64) {
+            return None;
+        }
+    }
+    let v = if neg { -v } else { v };
+    if v < i64::MIN as i128 || v > i64::MAX as i128 {
+        return None;
+    }
+    Some((v, &body[n..]))
+}
+
+/// port of `plainDecimal`: no leading C whitespace, not `0`-prefixed
+fn plain_decimal(s: &[u8]) -> bool {
+    if s.first().map_or(false, |c| *c == b' ' || (9..=13).contains(c)) {
         return false;
     }
-    let skip = text.iter().take_while(|c| **c == b' ' || **c == 9).count();
-    go(&text[skip..], false, false)
+    let body = match s.first() {
+        Some(b'-') | Some(b'+') => &s[1..],
+        _ => s,
+    };
+    !(body.len() > 1 && body[0] == b'0')
+}
+
+/// port of `boolDeviates`
+fn bool_deviates(s: &[u8]) -> bool {
+    let word = ["true", "yes", "on", "false", "no", "off"].iter().any(|w| s.eq_ignore_ascii_case(w.as_bytes())) || s.is_empty();
+    if word {
+        return false;
+    }
+    if !plain_decimal(s) {
+        return true;
+    }
+    match dec_read(s) {
+        Some((v, [])) => v < -2147483647 || v > 2147483647,
+        Some((_, [u])) => b"kKmMgG".contains(u),
+        _ => false,
+    }
 }
 
 /// one value text after `=`: spec vs git, model vs gitoxide, gitoxide vs git
@@ -509,6 +574,15 @@ fn do_scalar(rep: &mut Report, sc: &Scratch, f: &gix_config::File<'_>, key: &str
         _ => "err".into(),
     };
     let dev = number_form(s);
+    // the domains of Props.C27.int_eq_git_total / bool_eq_git_total, tied to the Lean predicates
+    rep.case(&format!("plaindec {}", hex(s)), if plain_decimal(s) { "true" } else { "false" }, false);
+    rep.case(&format!("booldev {}", hex(s)), if bool_deviates(s) { "true" } else { "false" }, false);
+    if !bool_deviates(s) && xb != gb {
+        rep.oracle_failure(&format!("bool-in-proved-domain:{}", hex(s)), &format!("value {:?}: git --type=bool says {gb}, gitoxide boolean() says {xb}", short(s)), &format!("bool {}", hex(s)));
+    }
+    if plain_decimal(s) && xi != gi && xi != i64::MIN.to_string() {
+        rep.oracle_failure(&format!("int-in-proved-domain:{}", hex(s)), &format!("value {:?}: git --type=int says {gi}, gitoxide integer() says {xi}", short(s)), &format!("int {}", hex(s)));
+    }
     if xb != gb {
         let key = match dev {
             Some("i64-min") => "bool-beyond-i32".to_string(),
